@@ -203,9 +203,10 @@ Section Top.
   Proof.
     rewrite poly_fit_char. destruct (polyfit 1%Z) as [cs|er]; cbn [bind]; [|discriminate].
     change (1 =? 2)%Z with false. change (1 =? 1)%Z with true.
-    destruct (py_get cs 0%Z) as [a|er]; cbn [bind]; [|discriminate].
-    destruct (py_get cs 1%Z) as [b|er]; cbn [bind]; [|discriminate].
-    intros H. inversion H. exists cs, a, b. repeat split; try reflexivity.
+    destruct (py_get cs 0%Z) as [a|er] eqn:EA; cbn [bind]; [|discriminate].
+    destruct (py_get cs 1%Z) as [b|er] eqn:EB; cbn [bind]; [|discriminate].
+    intros H. injection H as Hx. subst x. exists cs, a, b.
+    split; [reflexivity|]. split; [exact EA|]. split; [exact EB|]. split.
     - unfold poly_inv1. num_R. reflexivity.
     - intros Ha. exact (K_poly_inv1 e p b a Ha).
   Qed.
@@ -223,13 +224,13 @@ Section Top.
     destruct (polyfit 2%Z) as [cs|er]; cbn [bind]; [|discriminate].
     change (2 =? 2)%Z with true. change (1 =? 2)%Z with false. change (1 =? 1)%Z with true.
     destruct (py_get cs 0%Z) as [a|er] eqn:EA; cbn [bind]; [|discriminate].
-    intros H. exists cs, a. split; [reflexivity|]. split; [reflexivity|].
+    intros H. exists cs, a. split; [reflexivity|]. split; [exact EA|].
     destruct (Rlt_dec 0 a) as [H0|H0].
     - left. split; [exact H0|]. exact H.
     - right. split; [exact H0|].
-      destruct (py_get cs 1%Z) as [b|er]; cbn [bind] in H; [|discriminate].
-      destruct (py_get cs 2%Z) as [c|er]; cbn [bind] in H; [|discriminate].
-      inversion H. exists b, c. split; [reflexivity|]. split; [reflexivity|].
+      destruct (py_get cs 1%Z) as [b|er] eqn:EB; cbn [bind] in H; [|discriminate].
+      destruct (py_get cs 2%Z) as [c|er] eqn:EC; cbn [bind] in H; [|discriminate].
+      injection H as Hx. subst x. exists b, c. split; [first [exact EB|reflexivity]|]. split; [first [exact EC|reflexivity]|].
       intros Ha HD. destruct (poly_inv2_spec e a b c p Ha HD) as [Q1 [Q2 Q3]].
       split; [exact Q1|]. split; [exact Q2|]. apply Q3. lra.
   Qed.
